@@ -367,6 +367,16 @@ def render(case):
     T.auto_table_layout, T.fixed_table_layout, B.collapse_table_borders = auto_hook, fixed_hook, collapse_hook
     try:
         pages = render_pages(case['html'])
+    except Exception as exc:  # noqa  (kept with the records made so far: the harness classifies the crash with them)
+        import traceback, os
+        site = None
+        for fr in reversed(traceback.extract_tb(exc.__traceback__)):
+            if '/weasyprint/' in fr.filename:
+                site = [type(exc).__name__, fr.filename.split('/weasyprint/', 1)[1], fr.name]
+                break
+        rec['crash'] = {'type': type(exc).__name__, 'msg': str(exc)[:300], 'site': site,
+                        'tb': ''.join(traceback.format_exception(type(exc), exc, exc.__traceback__))[-1500:]}
+        pages = []
     finally:
         T.auto_table_layout, T.fixed_table_layout, B.collapse_table_borders = orig_auto, orig_fixed, orig_collapse
     rec['pages'] = len(pages)
